@@ -176,6 +176,11 @@ def execute_copies_wrap(case, ctx):
     return execute_copies(case, ctx)
 
 
+def preimport():
+    from ..eda import data_dir
+    data_dir()
+
+
 SUBS = [
     Sub("solo_vs_batched", execute, strategy=lambda tier: episode_cases(tier, ALL_ENVS),
         budget={"quick": 2500, "thorough": 40000}, shards=16),
